@@ -19,6 +19,9 @@ ARG_POOL = [
     "a.b@g: {1}", "T: Clone", "A| T: Clone, U: Copy", "as ()", "as {}", "as Unit", "A| as ()", "as Foo", "1", "\"s\"", "1..=5", "_", "1 | 2", "A| 3",
     "i32", "x, i32", "A| i32", "permeate()", "permeate(), map", "map, child", "bogus", "x, y", "[map(z)] x, y", "[parent(a, b)] c: C", "[parent(a)] c", "x: X", "A| x, y",
     "[from(~.q())] x", "[bogus(1)] x", "[parent(a)] [parent(b)] c: C", "1: {1}, 0: {2}", ", ,", "a,", "::A", "a::b::C<T>", "A<'a>", "A::<u8>| x",
+    # literals of every kind as the whole argument / first argument: only an unsuffixed integer that fits a tuple index designates a member
+    "7u8", "1u16", "0usize", "10000000000", "4294967296", "1.5", "1e3", "2f32", "'c'", "b'c'", "b\"bs\"", "true", "-1", "0x1f", "0b11u8", "1_000", "A| 7u8", "7u8, ~", "[from(1u8)] x", "[map(7u8)] 0, 1",
+    "0: T", "1u8: T", "0u8.a", "7u8: {1}", "10000000000: {1}", "A| 0u8", "3i32..=5i32", "0 1", "0.0.0",
     "@.0.to_string()", "A| vars(x: 1)", "A| vars()", "A| repeat(bogus)", "A, | x", "A as", "A| return", "A| ..", "A| _", "A| _ =>", "{", "(", "A| attribute()",
 ]
 ARG_POOL = [a for a in ARG_POOL if a is None or (a.count("(") == a.count(")") and a.count("{") == a.count("}") and a.count("[") == a.count("]"))]
